@@ -12,6 +12,8 @@ TRUST = ("Trusted base: the AST instrumenter and simrt scheduler (syntactic rewr
          "Sampling, not enumeration: a clean batch is evidence, not proof. Standard library, codec and generated code are atomic to the scheduler.")
 
 CLAIMED = {
+    "C07": ("5/C07", "Seeded search over partitions of the byte stream (write chunking down to single bytes, cuts inside the 4-byte prefix, coalescing, pauses, read fragmentation, back-pressure) x frame-length sequences (4, 5, around 4096, max-1, max, illegal prefixes) x maximum-length settings x schedules, against the real server receive loop (with and without worker pool) and the real client receive loop with recording protocol layers; "
+            "oracle: the packets handed to the protocol layer equal the legal frames written before the first illegal prefix (same bytes, once, in order; multiset under a pool), a frame of exactly the maximum is delivered, an illegal prefix closes that connection only and nothing after it is delivered."),
     "C08": ("5/C08", "Seeded search over interleavings of concurrent callers, the client's sender/receiver goroutines and per-packet Recv goroutines of the real ServantProxy/AdapterProxy/TarsClient against a scripted peer that answers in any order, late, duplicated, with stray ids and id-0 push frames (independent reference codec); "
             "oracle per call: the response's id equals the id of its own request as seen on the wire and the payload is the echo of its own payload, or a timeout error; ids on the wire are never 0; no two concurrently outstanding calls share an id (id counter preset near the wrap in some runs)."),
     "C09": ("5/C09", "Seeded search over peer behaviours (silent, slow, closing at every point of the exchange, resetting, garbage, refusing, black-holed, crash/restart, not reading) x deadlines (proxy, per-call, context) x client time-outs x schedules, with the real client stack; "
